@@ -199,6 +199,12 @@ def gen(ctx, seed, tier):
         k = r.randint(1, len(names))
         cases.append("%s %s" % (r.choice(["R", "R", "RL"]), ",".join(r.sample(names, k))))
     cases.append("R " + ",".join("f%03d" % i for i in range(300)))
+    # names at the limit (NAME_MAX = 255 bytes): 254, 255, and two 255-byte names that differ in the last byte only
+    n254, n255, n255a, n255b = "k" * 254, "m" * 255, "x" * 254 + "a", "x" * 254 + "b"
+    cases += ["R " + n255, "R " + n254, "R %s,%s" % (n255a, n255b), "RL %s,%s,a,.h,%s/" % (n255a, n254, n255b),
+              "R %s,%s,%s" % (".." + "d" * 253, "." * 255, "a%20" + "b" * 253)]
+    cases += ["V ok " + n255, "V ok " + n254, "V ok .,%s,..,%s" % (n255a, n255b), "V ok %s,.,a,%s,..,%s" % (n254, n255, n255),
+              "V ok %s,%s" % ("." * 255, ".." + "d" * 253)]
     # V: scripted opendir/readdir: any names in any order, "." and ".." anywhere (or absent, or repeated)
     pool = [".", "..", "a", "..data", "...", ".hidden", "a%20b", "..a", ".%20", "..%20", "x", "%2E", "b%2Cc", "d%3Ae"]
     cases += ["V ok -", "V fail -", "V fail a,b", "V ok .,..", "V ok ..,.", "V ok a,.,..", "V ok .,..,..data,...,.hidden",
@@ -246,26 +252,18 @@ def l1_extra(case, impl_obs):
 
 
 def tokens(c):
-    """shrinking: the names of a listing / the entries of a setup are dropped one by one"""
+    """shrinking: the names of a listing are dropped one by one"""
     t = c.split(" ")
     if t[0] in ("R", "RL") and len(t) == 2:
         return [t[0]] + ["," + x for x in t[1].split(",")]
     if t[0] == "V" and len(t) == 3:
         return t[:2] + ["," + x for x in t[2].split(",")]
-    if t[0] == "D" and len(t) == 4:
-        return t[:2] + [";" + x for x in t[2].split(",")] + ["=" + t[3]]
-    if t[0] == "Q" and len(t) == 3:
-        return t[:1] + [";" + x for x in t[1].split(",")] + ["=" + t[2]]
-    return [c]
+    return [c]      # D/Q: the entries of a setup depend on each other (parents first), not shrunk
 
 
 def untokens(toks):
-    head = [x for x in toks if x[0] not in ",;="]
+    head = [x for x in toks if x[0] != ","]
     names = [x[1:] for x in toks if x[0] == ","]
-    setup = [x[1:] for x in toks if x[0] == ";"]
-    path = [x[1:] for x in toks if x[0] == "="]
-    if head and head[0] in ("D", "Q"):
-        return " ".join(head + [",".join(setup) or "-"] + path)
     if head and head[0] in ("R", "RL", "V"):
         return " ".join(head + [",".join(names) or "-"])
     return " ".join(toks)
@@ -293,6 +291,13 @@ def stats(cases, impl):
     for c, l in zip(cases, impl):
         if c.startswith("E ") and l.startswith("eq= "):
             eq[l.split()[1]] = eq.get(l.split()[1], 0) + 1
-    return {"case_kinds": kinds, "mkdirs_status_histogram": d_status, "equals_results": eq,
+    import re
+    max_name = 0
+    for c in cases:
+        t = c.split()
+        if t[0] in ("R", "RL", "V") and t[-1] != "-":
+            for nm in t[-1].split(","):
+                max_name = max(max_name, len(re.sub(r"%[0-9A-Fa-f]{2}", "_", nm.rstrip("/"))))
+    return {"case_kinds": kinds, "max_entry_name_length": max_name, "mkdirs_status_histogram": d_status, "equals_results": eq,
             "equals_with_script": sum(1 for c in cases if c.startswith("E ") and not c.endswith(" -")),
             "equals_alloc_failures": sum(1 for c in cases if c.startswith("E ") and " N" in c)}
